@@ -252,6 +252,7 @@ ATTACHED_FIELDS = ('pragma', 'pragma_post', 'comment', 'comments')
 the single comments that make up a CommentBlock)."""
 
 SKIP_FIELDS = ('source', 'parent', 'symbol_attrs', 'rescope_symbols')
+DFA_SLOTS = ('_live_symbols', '_defines_symbols', '_uses_symbols')
 
 
 def _loki():
@@ -520,11 +521,12 @@ def enc(x, memo=None, with_private=False, skip_source=True):
         items.append((name, enc_value(value, memo, with_private)))
     if with_private:
         for k in sorted(x.__dict__):
-            if k.startswith('_') and k not in ('_source',):
+            if k.startswith('_') and k not in ('_source',) and not (with_private == 'nodfa' and k in DFA_SLOTS):
                 v = x.__dict__[k]
-                items.append((k, None if v is None else 'set'))
+                if v is not None:      # an absent placeholder and a None placeholder are the same state
+                    items.append((k, 'set'))
         extra = sorted(k for k in x.__dict__ if k not in {f.name for f in dataclasses.fields(x)}
-                       and not k.startswith('_') and k not in SKIP_FIELDS)
+                       and not k.startswith('_') and k not in SKIP_FIELDS and x.__dict__[k] is not None)
         for k in extra:
             items.append(('+' + k, enc_value(x.__dict__[k], memo, with_private)))
     return ('@' + type(x).__name__, tuple(items))
